@@ -55,6 +55,8 @@ theorem spec_step_inv (tbl : ClassTable) (hf : tbl.Faithful) (w : World) (ss : S
         have hsh := editParamG_sameShape (editParamK_some hg'')
         exact ⟨fun z hz => hasRep_sameShape hsh (hi.repV z hz), hasRep_sameShape hsh hi.repC⟩
   | dataMut m d => exact ⟨hi.repV, hi.repC⟩
+  | clearAll => exact hi
+  | change => exact ⟨hi.repV, hi.repC⟩
 
 theorem spec_init_inv : SpecInv {} :=
   ⟨fun n hn => (by cases hn), ⟨.leaf emptyContent, by simp only [Rep]; exact ⟨.base, 0, rfl, rfl⟩⟩⟩
